@@ -250,7 +250,7 @@ AttributeError from the dunder rule, or the getter of some trait in `P`. -/
 theorem getattro_outcome (E : Env) {P : Trait → Prop} {w : World} (hw : NoDeleg w) {oi : Nat} {name : Name}
     (hg : GovAt P w oi name) (hd : DictAt w oi name none) (hca : E.classAttr name = none) :
     ∃ o c, w.objs[oi]? = some o ∧ w.classes[o.cls]? = some c ∧
-      ((getattro E w oi o c name).2 = .error .attributeError ∨
+      (((getattro E w oi o c name).2 = .error .attributeError ∧ (P anyTrait ∨ P genericTrait)) ∨
        ∃ t, P t ∧ (getattro E w oi o c name).2 = (getattrKind E t o.dict name).map (fun r => Out.val r.1)) := by
   obtain ⟨o, c, ho, hc, hig, hcg, htot⟩ := hg
   obtain ⟨o', ho', hdn⟩ := hd
@@ -279,12 +279,18 @@ theorem getattro_outcome (E : Env) {P : Trait → Prop} {w : World} (hw : NoDele
       simp only
       rw [prefixTrait_plain_eq hcp hop] at hp
       unfold resolve₀ at hp
-      split at hp
-      · split at hp
-        · cases hp
-        · simp at hp; cases hp; rfl
-      · obtain ⟨e', he'⟩ := firstMatch_total htot name
-        rw [he'] at hp; cases hp
+      by_cases hdu : isDunder name = true
+      · simp only [hdu, ↓reduceIte] at hp
+        by_cases hcl : name = classDunder
+        · simp only [hcl, ↓reduceIte] at hp; cases hp
+        · simp only [hcl, ↓reduceIte] at hp
+          simp at hp; cases hp
+          refine ⟨rfl, Or.inl (hcg anyTrait (Or.inr ⟨hct, true, ?_⟩))⟩
+          unfold resolve₀
+          simp [hdu, hcl]
+      · simp only [hdu] at hp
+        obtain ⟨e', he'⟩ := firstMatch_total htot name
+        rw [he'] at hp; simp at hp
     | ok t =>
       rw [getPrefixTrait_ok hp hi]
       right
